@@ -273,6 +273,9 @@ class SuperProxy(object):
         self._obj = obj
 
     def __getattr__(self, name):
+        return self.lookup(name)
+
+    def lookup(self, name):
         inst_cls = self._obj.cls if isinstance(self._obj, Obj) else self._obj
         mro = inst_cls.mro()
         i = mro.index(self._cls)
@@ -567,6 +570,8 @@ class Interp(object):
     def getattr(self, v, name):
         if isinstance(v, Obj):
             return self.obj_getattr(v, name)
+        if isinstance(v, SuperProxy):
+            return v.lookup(name)
         if isinstance(v, ClassVal):
             if name == "__name__":
                 return v.name
